@@ -459,12 +459,29 @@ def run(repo):
 
             def visit(self, node, state):
                 if isinstance(node, ast.Assign) and any(is_self_attr(t, 'obj') for t in node.targets):
-                    from rsx.flow import holds
+                    from rsx.flow import holds, clauses_of
                     self.stores.append(holds(state, 'self.obj is None'))
+                    # what is known about the number of entries where the objective is stored: some clause bounds
+                    # a size (x.size > 1 is false), possibly next to the type tests of the other cases
+                    import re as _re
+                    sized = False
+                    for c in clauses_of(state):
+                        for atom, pol in c:
+                            sz = r'(\S*\.size|np\.prod\(.*\)|len\(.*\))'
+                            if (_re.fullmatch(sz + r' > 1', atom) or _re.fullmatch(r'1 < ' + sz, atom) or
+                                    _re.fullmatch(sz + r' >= 2', atom) or _re.fullmatch(r'2 <= ' + sz, atom)) \
+                                    and pol is False:
+                                sized = True
+                            if (_re.fullmatch(sz + r' (<= 1|== 1|< 2)', atom) or
+                                    _re.fullmatch(r'(1 >=|1 ==|2 >) ' + sz, atom)) and pol is True:
+                                sized = True
+                    self.sized.append(sized)
         fl = _Set()
+        fl.sized = []
         fl.run(body_stmts(fi))
         size_guard = any(isinstance(n, ast.If) and _rejects_multi(fi, n.test)
-                         and any(isinstance(s, ast.Raise) for s in n.body) for n in walk_no_nested(fi.node))
+                         and any(isinstance(s, ast.Raise) for s in n.body) for n in walk_no_nested(fi.node)) or \
+            (bool(fl.sized) and all(fl.sized))
         ok = bool(fl.stores) and all(fl.stores) and size_guard
         res.inst({'setter': fq, 'redefinition_guard': bool(fl.stores) and all(fl.stores),
                   'size_guard': size_guard}, ok)
@@ -510,8 +527,41 @@ def run(repo):
             if isinstance(v, ast.Call) and isinstance(v.func, ast.Name) and v.func.id in ('frozenset', 'property',
                                                                                            'staticmethod', 'classmethod'):
                 return True
+            if isinstance(v, ast.BinOp):            # 'a' + 'b', 2 * 3
+                return immutable(v.left) and immutable(v.right)
+            if isinstance(v, ast.JoinedStr):
+                return True
+            if isinstance(v, ast.Attribute) and isinstance(v.value, ast.Name):      # __mul__ = Other.__mul__
+                return True
             return False
-        bad = [k for k, v in ci.class_attrs.items() if not immutable(v)]
+
+        def mutated(k):
+            """is the object behind attribute `k` changed anywhere in the package (through any receiver)?"""
+            for m_ in repo.modules.values():
+                for n_ in ast.walk(m_.tree):
+                    if isinstance(n_, ast.Attribute) and n_.attr == k:
+                        if isinstance(n_.ctx, (ast.Store, ast.Del)) and not (isinstance(n_.value, ast.Name) and
+                                                                              n_.value.id == 'self'):
+                            return True                 # Cls.k = ..
+                    if isinstance(n_, ast.Subscript) and isinstance(n_.ctx, (ast.Store, ast.Del)) and \
+                            isinstance(n_.value, ast.Attribute) and n_.value.attr == k:
+                        return True                     # x.k[i] = ..
+                    if isinstance(n_, ast.AugAssign) and isinstance(n_.target, (ast.Attribute, ast.Subscript)):
+                        t_ = n_.target.value if isinstance(n_.target, ast.Subscript) else n_.target
+                        if isinstance(t_, ast.Attribute) and t_.attr == k:
+                            return True
+                    if isinstance(n_, ast.Call) and isinstance(n_.func, ast.Attribute) and \
+                            isinstance(n_.func.value, ast.Attribute) and n_.func.value.attr == k and \
+                            n_.func.attr in ('append', 'extend', 'insert', 'pop', 'remove', 'clear', 'sort', 'reverse',
+                                             'update', 'add', 'discard', 'setdefault', 'popitem', 'resize', 'fill'):
+                        return True
+                    if isinstance(n_, ast.Call) and isinstance(n_.func, ast.Name) and n_.func.id in ('setattr', 'delattr') \
+                            and len(n_.args) >= 2 and not (isinstance(n_.args[1], ast.Constant) and n_.args[1].value != k):
+                        return True                     # a computed attribute name could be k
+            return False
+        # a class-level display that nothing in the package ever changes is a constant table, not shared state
+        bad = [k for k, v in ci.class_attrs.items() if not immutable(v) and
+               (mutated(k) or not isinstance(v, (ast.List, ast.Dict, ast.Set, ast.Tuple)))]
         res.inst({'class_body': ci.fq, 'attrs': sorted(ci.class_attrs), 'mutable': bad}, not bad)
         for k in bad:
             res.fail(Finding(RULE, ci.fq, 'class attribute ' + k,
